@@ -118,6 +118,9 @@ class _NonrecursivePickler(dill.Pickler):
         self.lazywrites = []
         self.realwrite = file.write
 
+        # set while a class is being saved; see dump()
+        self._eager = False
+
         # TODO: this creates a reference loop and prevents gc
         self.write = self.lazywrite
 
@@ -140,6 +143,10 @@ class _NonrecursivePickler(dill.Pickler):
             raise NotImplementedError(  # pragma: no cover
                 "Edgegraph _NonrecursivePickler does not support save_persistent_id option!"
             )
+        if self._eager:
+            # part of a class that is being saved: the stock, depth-first way
+            self.realsave(obj)
+            return
         self.lazywrites.append(_LazySave(obj))
 
     #: Alias to the true :py:meth:`dill.Pickler.save`.
@@ -165,6 +172,11 @@ class _NonrecursivePickler(dill.Pickler):
         as a list that contains the tuple).  Here the elements are only queued,
         so that decision is queued behind them; see :py:meth:`_finish_tuple`.
         """
+        if self._eager:
+            # pylint: disable-next=protected-access
+            pickle._Pickler.save_tuple(self, obj)
+            return
+
         if not obj:
             if self.bin:
                 self.write(pickle.EMPTY_TUPLE)
@@ -216,7 +228,24 @@ class _NonrecursivePickler(dill.Pickler):
             while lws:
                 lw = lws.pop(0)
                 if isinstance(lw, _LazySave):
-                    self.realsave(lw.obj)
+                    if isinstance(lw.obj, type):
+                        # a class.  mostly that is a reference by name; but a
+                        # class that cannot be imported (one defined in
+                        # __main__, say) is pickled by value, and dill ties the
+                        # knot between such a class and the methods and cells
+                        # that refer back to it (zero-argument super()) on the
+                        # understanding that they are saved depth-first.  with
+                        # deferred saves the class was never memoized by the
+                        # time it came around again, and was saved over and
+                        # over, forever.  a class definition is not deep: save
+                        # all of it right here, the stock way.
+                        self._eager = True
+                        try:
+                            self.realsave(lw.obj)
+                        finally:
+                            self._eager = False
+                    else:
+                        self.realsave(lw.obj)
                     if self.lazywrites:
                         self.lazywrites.extend(lws)
                         break
